@@ -8,6 +8,10 @@
   join-fanout         per-version-set fetches of a requirement/union go through try_join_all
   push-pairing        every async block created by a queue_* function is pushed to pending_futures
   drain-type          pending_futures is a FuturesUnordered
+
+Added after the second and third seeding rounds:
+  queued-in-consumer   everything a received Dependencies value implies is queued by the consumer itself, on every path, and the
+                       queue_* functions are called from nowhere else
 """
 from common import *
 import q, mech
